@@ -462,6 +462,15 @@ func reifyValue(
 			return reflect.Value{}, err
 		}
 		return pointerize(t, baseType, v), nil
+
+	case reflect.Array:
+		// an array that has to be created (behind a nil pointer, as the
+		// element of a map or list) is filled like an array field
+		v, err := reifyArray(opts, reflect.New(baseType).Elem(), baseType, val)
+		if err != nil {
+			return reflect.Value{}, err
+		}
+		return pointerize(t, baseType, v), nil
 	}
 
 	return reifyPrimitive(opts, val, t, baseType)
